@@ -326,11 +326,14 @@ func runC20(c *Ctx) {
 	for pid, fulls := range prefixBuilders {
 		pf := p.Func(pid)
 		pts, why := evalBuilder(p, pf)
-		if why != "" || len(pts) != 1 {
+		if why != "" || len(pts) == 0 {
 			undecided("prefix builder %s cannot be evaluated (%s)", pid, why)
 		}
 		pt := pts[0]
-		ps := pt.instantiate(sampleFor(pt, "0"))
+		ps, okNP := instNoOpt(pts, sampleVals)
+		if !okNP {
+			undecided("prefix builder %s evaluates to %d templates", pid, len(pts))
+		}
 		c.check(strings.HasSuffix(ps, "/"), "prefix.ends-with-separator", pid, p.Pos(pf.Decl.Pos()),
 			"`"+pt.String()+"` ends with the separator",
 			"prefix `"+pt.String()+"` does not end with '/': a listing of repo \"exp\" also returns the keys of \"exp-2\" and \"experiment\"")
